@@ -47,33 +47,6 @@ where
     rw [expandReference_eq h]
     simp [Spec.expandPair, ownerP_of_mem h.unique hr hp]
 
-/-- element-wise relation between two lists of equal length -/
-inductive Forall2 {α β : Type} (R : α → β → Prop) : List α → List β → Prop
-  | nil : Forall2 R [] []
-  | cons {a b l₁ l₂} : R a b → Forall2 R l₁ l₂ → Forall2 R (a :: l₁) (b :: l₂)
-
-theorem Forall2.imp {α β : Type} {R S : α → β → Prop} (h : ∀ a b, R a b → S a b) {l₁ : List α} {l₂ : List β}
-    (hf : Forall2 R l₁ l₂) : Forall2 S l₁ l₂ := by
-  induction hf with
-  | nil => exact .nil
-  | cons hr _ ih => exact .cons (h _ _ hr) ih
-
-theorem mapM_ok_forall₂ {α β ε : Type} (f : α → Except ε β) (l : List α) (out : List β)
-    (h : l.mapM f = .ok out) : Forall2 (fun a b => f a = .ok b) l out := by
-  induction l generalizing out with
-  | nil => simp [List.mapM_nil, pure, Except.pure] at h; subst h; exact Forall2.nil
-  | cons a as ih =>
-    rw [List.mapM_cons] at h
-    cases hv : f a with
-    | error e => simp [hv, bind, Except.bind] at h
-    | ok b' =>
-      cases hm : as.mapM f with
-      | error e => simp [hv, hm, bind, Except.bind] at h
-      | ok bs =>
-        simp [hv, hm, bind, Except.bind, pure, Except.pure] at h
-        subst h
-        exact Forall2.cons hv (ih bs hm)
-
 /-- **C13.** `from_priority_prefix_map`: record by record, the first URI prefix of the list is
 canonical and the rest are the synonyms, in order; nothing else is produced. -/
 theorem C13_priority (data : List (Str × List Str)) (recs : List Record) (h : priorityRecords data = .ok recs) :
